@@ -1,1 +1,51 @@
-From ZB Require Import Api.Api.
+(* C11 - any request reaches the NCP intact, fragments contiguous, each awaiting its ACK. *)
+From Coq Require Import NArith List Bool.
+From ZB Require Import Api.Api Api.ApiProofs Base.Bytes Link.LinkSpec Link.LinkSpecProofs Link.Frame Link.Frag Link.FrameProofs
+  Link.FragProofs Link.Reasm Link.ReasmProofs Link.RxSpec gen.GenConsts.
+Import ListNotations.
+Open Scope N_scope.
+
+(* For every event history (any number of concurrent blocking / non-blocking requests of 1..n fragments; ACKs
+   with any number, responses, silence, cancellations, close, loss, reset) the trace obeys the lock discipline:
+   a data frame (OW rid k) is written only by the request that holds the message lock, it is fragment k = the
+   next fragment of that request's run (0, 1, 2, ... without gaps), k < its number of fragments, and the lock is
+   handed over FIFO only when its holder releases it.  Hence the fragments of one message are never interleaved
+   with frames of another. *)
+Theorem C11_fragments_contiguous_in_order : forall evs, discipline (log (run_events evs)) = true.
+Proof. exact discipline_always. Qed.
+Print Assumptions C11_fragments_contiguous_in_order.
+
+(* what this says at each data frame *)
+Theorem C11_each_write_is_the_holders_next_fragment : forall l1 l2 r k q, discipline (l2 ++ OW r k q :: l1) = true ->
+  exists a, scan l1 = Some a /\ frag_ok a r k = true.
+Proof. exact discipline_at_write. Qed.
+Print Assumptions C11_each_write_is_the_holders_next_fragment.
+
+(* every byte written belongs to a well-formed frame: each fragment as stamped by send() is the spec encoding
+   of a well-formed frame carrying exactly its piece of the message (C09/C05) *)
+Theorem C11_every_fragment_wellformed : forall h d seq p, h <> 0 -> h < 2 ^ 32 -> bytes_ok d -> seq < 4 ->
+  let ser := le_enc 4 h ++ d in
+  (MAXB < length ser)%nat -> In p (spec_fragments ser) ->
+  exists w, serialize (stamp seq (frame_of_piece h p)) = spec_encode w /\ wf w /\ w_ack w = false /\
+    w_body w = snd p /\ w_size w = N.of_nat (length (snd p)) + 7 /\
+    fl_first (w_flags w) = (fst p =? llflag_FirstFrag) /\ fl_last (w_flags w) = (fst p =? llflag_LastFrag) /\
+    fl_pseq (w_flags w) = seq.
+Proof. exact fragment_frames_wellformed. Qed.
+Print Assumptions C11_every_fragment_wellformed.
+
+(* the protocol-following NCP (check every checksum and length = spec parse; concatenate first..last = reassembly)
+   gets from a contiguous run of fragment frames exactly the command header and parameter bytes *)
+Theorem C11_ncp_reassembles_the_request : forall h d ws pending, h <> 0 -> h < 2 ^ 32 -> frag_seq h d ws ->
+  reasm_run pending ws = ([], [RMsg h d]).
+Proof. exact reasm_message. Qed.
+Print Assumptions C11_ncp_reassembles_the_request.
+Theorem C11_ncp_parses_clean_wire : forall ws, Forall wf ws -> spec_parse (concat (map spec_encode ws)) = ws.
+Proof. exact spec_parse_clean_stream. Qed.
+Print Assumptions C11_ncp_parses_clean_wire.
+
+Example C11_instance :
+  discipline (log (run_events [EIssue 1 10 false 2 5000; EIssue 2 11 false 1 5000; EAck 0; EAck 1; EAck 2])) = true /\
+  filter (fun o => match o with OW _ _ _ => true | _ => false end)
+         (rev (log (run_events [EIssue 1 10 false 2 5000; EIssue 2 11 false 1 5000; EAck 0; EAck 1; EAck 2])))
+  = [OW 1 0 0; OW 1 1 1; OW 2 0 2].
+Proof. vm_compute. split; reflexivity. Qed.
